@@ -20,12 +20,20 @@ func checkC17(ix *index, add addFn) {
 		}
 	}
 	q2pending := map[int]map[uint16]*Pkt{} // conn -> id -> PUBLISH
+	// engine R: a packet announced as readable whose connection was closed
+	// before the bytes went in
+	rxlost := map[[2]int]bool{}
+	for i := range ix.tr {
+		if ix.tr[i].Kind == "rxlost" {
+			rxlost[[2]int{ix.tr[i].Conn, ix.tr[i].N}] = true
+		}
+	}
 	for _, i := range ix.rx {
 		if i >= ix.end() {
 			break
 		}
 		r := &ix.tr[i]
-		if r.P == nil {
+		if r.P == nil || rxlost[[2]int{r.Conn, r.N}] {
 			continue
 		}
 		var msg *Pkt
